@@ -1,6 +1,8 @@
 // Generator for encoder cases (batch of packet recipes + DataContext + encoder ids), DESIGN.md C01/C07/C08.
 #pragma once
 
+#include <forward_list>
+
 #include "lib.h"
 
 namespace vf
@@ -30,6 +32,8 @@ struct EncCase
     uint32_t maxB{1500};
     std::vector<PacketRecipe> packets;
     std::vector<EncCall> prior;  // earlier encode calls on the same encoder object (C01 / C07 / C08: "every batch" is not only the first one)
+    uint8_t overload{0};  // which encode entry point: 0 vector<Packet> iterators, 1 vector<shared_ptr<Packet>> iterators,
+                          // 2 forward_list<Packet> iterators (plain forward iterators), 3 single-packet overload (batches of one)
 
     void io(Ar& a)
     {
@@ -40,6 +44,7 @@ struct EncCase
         a.num("maxB", maxB);
         a.vec("packets", packets);
         a.optionalVec("prior", prior);
+        a.optionalNum("overload", overload);
     }
 };
 
@@ -179,6 +184,32 @@ inline std::vector<lib::Packet> buildBatch(const EncCase& c)
     return out;
 }
 
+// the batch goes through the entry point the case selects (all of them must behave alike)
+inline std::vector<std::vector<uint8_t>> encodeVia(lib::Encoder& enc, std::vector<lib::Packet>& batch, const lib::DataContext& ctx, uint8_t overload)
+{
+    switch (overload % 4)
+    {
+        case 1:
+        {
+            std::vector<std::shared_ptr<lib::Packet>> ptrs;
+            for (auto& p : batch)
+                ptrs.push_back(std::make_shared<lib::Packet>(p));
+            return enc.encode(ptrs.begin(), ptrs.end(), ctx);
+        }
+        case 2:
+        {
+            std::forward_list<lib::Packet> fl(batch.begin(), batch.end());
+            return enc.encode(fl.begin(), fl.end(), ctx);
+        }
+        case 3:
+            if (batch.size() == 1)
+                return enc.encode(batch[0], ctx);
+            return enc.encode(batch.begin(), batch.end(), ctx);
+        default:
+            return enc.encode(batch.begin(), batch.end(), ctx);
+    }
+}
+
 // runs the case's earlier encode calls on the encoder (ids already configured); their output is not inspected here
 inline void runPriorCalls(lib::Encoder& enc, const EncCase& c)
 {
@@ -187,7 +218,7 @@ inline void runPriorCalls(lib::Encoder& enc, const EncCase& c)
         std::vector<lib::Packet> batch;
         for (const auto& r : call.packets)
             batch.push_back(buildPacket(r, call.version));
-        enc.encode(batch.begin(), batch.end(), lib::DataContext{call.minB, call.maxB});
+        encodeVia(enc, batch, lib::DataContext{call.minB, call.maxB}, static_cast<uint8_t>(c.overload + 1 + batch.size()));
     }
 }
 
@@ -196,6 +227,7 @@ inline rc::Gen<EncCase> withPriorCalls(rc::Gen<EncCase> base, const EncGenParams
 {
     return rc::gen::exec([base, params]() {
         EncCase c = *base;
+        c.overload = *rc::gen::weightedElement<uint8_t>({{3, 0}, {2, 1}, {2, 2}, {2, 3}});
         if (*range<int>(0, 1) == 0)
             return c;
         EncGenParams p = params;
